@@ -14,6 +14,20 @@
  *         P  std.c console + sio/tio reading standard input, which is a real pipe fed by a writer thread with the BYTES of
  *            the single file under the given chunking in bytes: every read(2) returns exactly one chunk (the writer
  *            waits until the pipe is empty); Q = the same read with getbline; Z = all 2^(n-1) byte chunkings (like X).
+ *   MODE  <rs mode>[@<program>]   programs (k a small number; PR(x) = print NR, FNR, FILENAME, "[" x "]";
+ *            SP = print 0, ++sn, "side", "[" y "]"; the side stream is the FILE named `side`, served by a chunking custom
+ *            FILE handler in the custom kinds and by std.c's file handler over a real file in the std kinds):
+ *            (none) { PR($0) }
+ *            N<k>   { PR($0); if (FNR == k) nextfile }                       the stream is abandoned in mid-buffer
+ *            G<k>   { PR($0); if (NR % k == 0 && (getline) > 0) PR($0) }     a second caller of hawk_rtx_readio
+ *            V<k>   { PR($0); if (NR % k == 0 && (getline v) > 0) PR(v) }
+ *            M<k>   { PR($0); if (NR % 2 == 0 && (getline) > 0) PR($0); if (FNR >= k) nextfile }
+ *            S<k>   { PR($0); if (NR % k == 0 && (getline y < "side") > 0) SP } END { while ((getline y < "side") > 0) SP }
+ *            C<k>   { PR($0); if ((getline y < "side") > 0) SP; if (NR % k == 0) { close("side"); sn = 0 } }   R<k>: close("side", "r")
+ *            K<k>   like S, the side stream is the command pipe "cat side" (std kinds only);  L<k> like S with `getline < "side"` into $0
+ *            byte kinds: (none), S<k>, C<k> with getbline inside BEGIN's while ((getbline x) > 0) loop
+ *   FILE  `%a` = an ARGV entry `vv=1` (assignment, no file), `%e` = an empty ARGV entry, name `-` = standard input fed through
+ *            the pipe (std kinds only)
  *   program:  BEGIN { RS = ...; ORS = "\001" } { print NR, FNR, FILENAME, "[" $0 "]" }
  *   after every record the console-read `hawk_rio_arg_t.in.{pos,len,eof}` is dumped (internal state, not only output)
  */
@@ -43,10 +57,15 @@ typedef struct
 	size_t nbytes;
 	size_t* cuts;
 	size_t ncuts;
+	int special;          /* 'a' assignment entry, 'e' empty entry, 0 a file */
 } file_t;
 
 static file_t files[MAXFILES];
 static int nfiles;
+static int cons_idx[MAXFILES]; /* the console's files: not `side`, not special */
+static int ncons;
+static int side_idx;          /* the file named `side`, or -1 */
+static size_t soff, scutidx;  /* position in it */
 static int cur;          /* index of the open file */
 static size_t off;       /* offset into it */
 static size_t reads;     /* READ calls */
@@ -143,8 +162,8 @@ static hawk_ooi_t console_custom (hawk_rtx_t* rtx, hawk_rio_cmd_t cmd, hawk_rio_
 		case HAWK_RIO_CMD_OPEN:
 			in_arg = riod;
 			cur = 0; off = 0; cutidx = 0;
-			if (nfiles <= 0) return 0;
-			if (set_filename(rtx, &files[0]) <= -1) return -1;
+			if (ncons <= 0) return 0;
+			if (set_filename(rtx, &files[cons_idx[0]]) <= -1) return -1;
 			return 1;
 
 		case HAWK_RIO_CMD_CLOSE:
@@ -159,7 +178,7 @@ static hawk_ooi_t console_custom (hawk_rtx_t* rtx, hawk_rio_cmd_t cmd, hawk_rio_
 		case HAWK_RIO_CMD_READ:
 		case HAWK_RIO_CMD_READ_BYTES:
 		{
-			file_t* f = &files[cur];
+			file_t* f = &files[cons_idx[cur]];
 			size_t n, nextcut;
 			reads++;
 			if (off >= f->len) return 0; /* end of this file */
@@ -179,10 +198,50 @@ static hawk_ooi_t console_custom (hawk_rtx_t* rtx, hawk_rio_cmd_t cmd, hawk_rio_
 		}
 
 		case HAWK_RIO_CMD_NEXT:
-			if (cur + 1 >= nfiles) return 0;
+			if (cur + 1 >= ncons) return 0;
 			cur++; off = 0; cutidx = 0;
-			if (set_filename(rtx, &files[cur]) <= -1) return -1;
+			if (set_filename(rtx, &files[cons_idx[cur]]) <= -1) return -1;
 			return 1;
+
+		default: break;
+	}
+	return -1;
+}
+
+/* `getline y < "side"` in the custom kinds: the side file in its own chunks */
+static hawk_ooi_t file_custom (hawk_rtx_t* rtx, hawk_rio_cmd_t cmd, hawk_rio_arg_t* riod, void* data, hawk_oow_t size)
+{
+	switch (cmd)
+	{
+		case HAWK_RIO_CMD_OPEN:
+			if (side_idx < 0 || riod->mode != HAWK_RIO_FILE_READ) return -1;
+			if (hawk_comp_oocstr_bcstr(riod->name, "side", 0) != 0) return -1;
+			soff = 0; scutidx = 0;
+			return 1;
+
+		case HAWK_RIO_CMD_CLOSE:
+			return 0;
+
+		case HAWK_RIO_CMD_READ:
+		case HAWK_RIO_CMD_READ_BYTES:
+		{
+			file_t* f = &files[side_idx];
+			size_t n, nextcut;
+			if (soff >= f->len) return 0;
+			while (scutidx < f->ncuts && f->cuts[scutidx] <= soff) scutidx++;
+			nextcut = (scutidx < f->ncuts)? f->cuts[scutidx]: f->len;
+			if (nextcut > f->len) nextcut = f->len;
+			n = nextcut - soff;
+			if (n > size) n = size;
+			if (cmd == HAWK_RIO_CMD_READ) memcpy (data, &f->data[soff], n * sizeof(hawk_ooch_t));
+			else
+			{
+				size_t k;
+				for (k = 0; k < n; k++) ((hawk_bch_t*)data)[k] = (hawk_bch_t)f->data[soff + k];
+			}
+			soff += n;
+			return n;
+		}
 
 		default: break;
 	}
@@ -238,15 +297,22 @@ static void wput (const char* a)
 	while (*a && wlen < HAWK_COUNTOF(wprog) - 1) wprog[wlen++] = (unsigned char)*a++;
 }
 
-static hawk_t* get_hawk (const char* mode, int bytes)
+static hawk_t* get_hawk (const char* modeprog, int bytes)
 {
 	/* mode: D | S<hex of one character> | P0 | P1 | R<hex of the RS text>:<ast> */
 	hawk_t* hawk;
 	hawk_parsestd_t psin[2];
 	int crlf = 0;
 	char key[512];
+	char mode[400];
+	const char* prog = "";
+	int k = 1;
+	char tmp[1024];
+	const char* at = strchr(modeprog, '@');
 
-	snprintf (key, sizeof(key), "%c%s", bytes? 'B': 'C', mode);
+	snprintf (mode, sizeof(mode), "%s", modeprog);
+	if (at) { mode[at - modeprog] = '\0'; prog = at + 1; if (prog[0] && prog[1]) k = atoi(prog + 1); if (k <= 0) k = 1; }
+	snprintf (key, sizeof(key), "%c%s", bytes? 'B': 'C', modeprog);
 	if (cached_hawk && strcmp(cached_key, key) == 0) return cached_hawk;
 	if (cached_hawk) { hawk_close (cached_hawk); cached_hawk = HAWK_NULL; }
 
@@ -281,8 +347,55 @@ static hawk_t* get_hawk (const char* mode, int bytes)
 	}
 	else return HAWK_NULL;
 
-	if (bytes) wput ("ORS = \"\\001\"; while ((getbline x) > 0) print NR, FNR, FILENAME, \"[\" x \"]\" }");
-	else wput ("ORS = \"\\001\" } { print NR, FNR, FILENAME, \"[\" $0 \"]\" }");
+#define PR(x) "print NR, FNR, FILENAME, \"[\" " x " \"]\""
+#define SP "print 0, ++sn, \"side\", \"[\" y \"]\""
+	wput ("ORS = \"\\001\"; ");
+	if (bytes)
+	{
+		switch (prog[0])
+		{
+			case '\0': wput ("while ((getbline x) > 0) " PR("x") " }"); break;
+			case 'S':
+				snprintf (tmp, sizeof(tmp), "while ((getbline x) > 0) { " PR("x") "; if (NR %% %d == 0 && (getbline y < \"side\") > 0) " SP " } "
+					"while ((getbline y < \"side\") > 0) " SP " }", k);
+				wput (tmp); break;
+			case 'C':
+				snprintf (tmp, sizeof(tmp), "while ((getbline x) > 0) { " PR("x") "; if ((getbline y < \"side\") > 0) " SP "; "
+					"if (NR %% %d == 0) { close(\"side\"); sn = 0 } } }", k);
+				wput (tmp); break;
+			default: return HAWK_NULL;
+		}
+	}
+	else
+	{
+		wput ("} ");
+		switch (prog[0])
+		{
+			case '\0': wput ("{ " PR("$0") " }"); break;
+			case 'N': snprintf (tmp, sizeof(tmp), "{ " PR("$0") "; if (FNR == %d) nextfile }", k); wput (tmp); break;
+			case 'G': snprintf (tmp, sizeof(tmp), "{ " PR("$0") "; if (NR %% %d == 0 && (getline) > 0) " PR("$0") " }", k); wput (tmp); break;
+			case 'V': snprintf (tmp, sizeof(tmp), "{ " PR("$0") "; if (NR %% %d == 0 && (getline v) > 0) " PR("v") " }", k); wput (tmp); break;
+			case 'M': snprintf (tmp, sizeof(tmp), "{ " PR("$0") "; if (NR %% 2 == 0 && (getline) > 0) " PR("$0") "; if (FNR >= %d) nextfile }", k); wput (tmp); break;
+			case 'S':
+				snprintf (tmp, sizeof(tmp), "{ " PR("$0") "; if (NR %% %d == 0 && (getline y < \"side\") > 0) " SP " } "
+					"END { while ((getline y < \"side\") > 0) " SP " }", k);
+				wput (tmp); break;
+			case 'L': /* getline < "side" without a variable: $0 is replaced, NR is not touched */
+				snprintf (tmp, sizeof(tmp), "{ " PR("$0") "; if (NR %% %d == 0 && (getline < \"side\") > 0) print 0, ++sn, \"side\", \"[\" $0 \"]\" } "
+					"END { while ((getline < \"side\") > 0) print 0, ++sn, \"side\", \"[\" $0 \"]\" }", k);
+				wput (tmp); break;
+			case 'K':
+				snprintf (tmp, sizeof(tmp), "{ " PR("$0") "; if (NR %% %d == 0 && (\"cat side\" | getline y) > 0) " SP " } "
+					"END { while ((\"cat side\" | getline y) > 0) " SP " }", k);
+				wput (tmp); break;
+			case 'C':
+			case 'R':
+				snprintf (tmp, sizeof(tmp), "{ " PR("$0") "; if ((getline y < \"side\") > 0) " SP "; if (NR %% %d == 0) { close(\"side\"%s); sn = 0 } }",
+					k, (prog[0] == 'R')? ", \"r\"": "");
+				wput (tmp); break;
+			default: return HAWK_NULL;
+		}
+	}
 	wprog[wlen] = 0;
 
 	hawk = hawk_openstd(0, HAWK_NULL);
@@ -301,7 +414,13 @@ static hawk_t* get_hawk (const char* mode, int bytes)
 	psin[1].type = HAWK_PARSESTD_NULL;
 	if (hawk_parsestd(hawk, psin, HAWK_NULL) <= -1)
 	{
-		fprintf (stderr, "parse error for mode %s\n", mode);
+		{
+			const hawk_ooch_t* m = hawk_geterrmsg(hawk);
+			size_t q;
+			fprintf (stderr, "parse error for mode %s: ", modeprog);
+			for (q = 0; m[q]; q++) fputc ((int)m[q], stderr);
+			fputc ('\n', stderr);
+		}
 		hawk_close (hawk);
 		return HAWK_NULL;
 	}
@@ -443,51 +562,67 @@ static int run_once (hawk_t* hawk, int kind)
 	static hawk_ooch_t paths[MAXFILES][256];
 	int i, ret = 0;
 	int piped = (kind == 'P' || kind == 'Q');
-	int saved0 = -1;
+	int saved0 = -1, feeding = 0;
 	pthread_t th;
 	feeder_t feeder;
 
 	outlen = 0; in_arg = HAWK_NULL; reads = 0;
 	strcpy (final_state, "e?");
 
-	if (kind == 'F' || kind == 'G')
+	if (kind == 'F' || kind == 'G' || piped)
 	{
+		/* std kinds: real files in the scratch directory (the cwd), `-` and the P kinds through the pipe on fd 0 */
+		int nicf = 0, pipe_idx = -1;
+		static hawk_ooch_t assign[] = { 'v', 'v', '=', '1', 0 };
+		static hawk_ooch_t empty[] = { 0 };
 		for (i = 0; i < nfiles; i++)
 		{
 			char path[256];
 			FILE* fp;
 			size_t k;
-			/* the file name seen by the program must be the model's name: the cwd is the scratch directory */
-			for (k = 0; k < files[i].namelen; k++) path[k] = (char)files[i].name[k];
-			path[files[i].namelen] = '\0';
-			fp = fopen(path, "wb");
-			if (!fp) { snprintf (errbuf, sizeof(errbuf), "cannot write %s", path); return -1; }
-			if (files[i].nbytes > 0 && fwrite(files[i].bytes, 1, files[i].nbytes, fp) != files[i].nbytes) { fclose (fp); return -1; }
-			fclose (fp);
+			if (files[i].special == 'a') { if (!piped) icf[nicf++] = assign; continue; }
+			if (files[i].special == 'e') { if (!piped) icf[nicf++] = empty; continue; }
+			if (piped && i == cons_idx[0]) { pipe_idx = i; continue; }       /* P, Q, Z: the single console stream is standard input */
+			if (files[i].namelen == 1 && files[i].name[0] == '-' && pipe_idx < 0)
+			{
+				pipe_idx = i;
+			}
+			else
+			{
+				/* the file name seen by the program must be the model's name */
+				for (k = 0; k < files[i].namelen; k++) path[k] = (char)files[i].name[k];
+				path[files[i].namelen] = '\0';
+				fp = fopen(path, "wb");
+				if (!fp) { snprintf (errbuf, sizeof(errbuf), "cannot write %s", path); return -1; }
+				if (files[i].nbytes > 0 && fwrite(files[i].bytes, 1, files[i].nbytes, fp) != files[i].nbytes) { fclose (fp); return -1; }
+				fclose (fp);
+			}
+			if (i == side_idx) continue;
 			for (k = 0; k <= files[i].namelen; k++) paths[i][k] = files[i].name[k];
-			icf[i] = paths[i];
+			icf[nicf++] = paths[i];
 		}
-		icf[nfiles] = HAWK_NULL;
-		rtx = hawk_rtx_openstd(hawk, 0, HAWK_T("readio_h"), icf, HAWK_NULL, HAWK_NULL);
-	}
-	else
-	{
-		if (piped)
+		icf[nicf] = HAWK_NULL;
+		if (pipe_idx >= 0)
 		{
 			int pfd[2];
-			if (nfiles != 1 || pipe(pfd) != 0) { snprintf (errbuf, sizeof(errbuf), "pipe failed"); return -1; }
+			if (pipe(pfd) != 0) { snprintf (errbuf, sizeof(errbuf), "pipe failed"); return -1; }
 			saved0 = dup(0);
 			dup2 (pfd[0], 0);
 			close (pfd[0]);
-			feeder.wfd = pfd[1]; feeder.rfd = 0; feeder.f = &files[0];
+			feeder.wfd = pfd[1]; feeder.rfd = 0; feeder.f = &files[pipe_idx];
 			if (pthread_create(&th, HAWK_NULL, feeder_main, &feeder) != 0)
 			{
 				close (pfd[1]); dup2 (saved0, 0); close (saved0);
 				snprintf (errbuf, sizeof(errbuf), "thread failed");
 				return -1;
 			}
+			feeding = 1;
 		}
-		/* no input file named: the std console reads standard input */
+		/* no input file named (P kinds): the std console reads standard input */
+		rtx = hawk_rtx_openstd(hawk, 0, HAWK_T("readio_h"), (piped? HAWK_NULL: icf), HAWK_NULL, HAWK_NULL);
+	}
+	else
+	{
 		rtx = hawk_rtx_openstd(hawk, 0, HAWK_T("readio_h"), HAWK_NULL, HAWK_NULL, HAWK_NULL);
 	}
 	if (!rtx) { snprintf (errbuf, sizeof(errbuf), "rtx open failed"); ret = -1; goto done; }
@@ -495,6 +630,7 @@ static int run_once (hawk_t* hawk, int kind)
 	hawk_rtx_getrio (rtx, &rio);
 	std_console = rio.console;
 	rio.console = (kind == 'F' || kind == 'G' || piped)? console_std: console_custom;
+	if (rio.console == console_custom) rio.file = file_custom;
 	hawk_rtx_setrio (rtx, &rio);
 
 	rv = hawk_rtx_loop(rtx);
@@ -510,7 +646,7 @@ static int run_once (hawk_t* hawk, int kind)
 	hawk_rtx_close (rtx);
 
 done:
-	if (piped)
+	if (feeding)
 	{
 		/* the reader is gone: unblock the writer if it still has something to say, then restore fd 0 */
 		int nul = open("/dev/null", 0);
@@ -555,16 +691,30 @@ int main (int argc, char* argv[])
 		while (p && nw < MAXFILES + 2) { words[nw++] = p; p = strtok(HAWK_NULL, " \r\n"); }
 		if (nw < 2) { puts ("bad-case"); continue; }
 		kind = words[0][0];
+		if (kind == 'U') kind = 'Z';      /* U, T: Z, F on byte strings that are not UTF-8 (no model line exists for them) */
+		if (kind == 'T') kind = 'F';
 		{
 			int bytes = (kind == 'B' || kind == 'Y' || kind == 'G' || kind == 'Q');
 			raw = bytes; /* the custom handler serves the bytes one by one */
 			hawk = get_hawk(words[1], bytes);
 		}
 		if (!hawk) { puts ("bad-case"); continue; }
-		nfiles = 0;
+		nfiles = 0; ncons = 0; side_idx = -1;
 		for (i = 2; i < nw; i++)
 		{
-			if (parse_file(words[i], &files[nfiles], raw) <= -1) { nfiles = -1; break; }
+			files[nfiles].special = 0;
+			if (words[i][0] == '%')
+			{
+				files[nfiles].special = words[i][1];
+				files[nfiles].namelen = 0; files[nfiles].len = 0; files[nfiles].nbytes = 0; files[nfiles].ncuts = 0;
+			}
+			else
+			{
+				if (parse_file(words[i], &files[nfiles], raw) <= -1) { nfiles = -1; break; }
+				if (files[nfiles].namelen == 4 && files[nfiles].name[0] == 's' && files[nfiles].name[1] == 'i' &&
+				    files[nfiles].name[2] == 'd' && files[nfiles].name[3] == 'e') side_idx = nfiles;
+				else cons_idx[ncons++] = nfiles;
+			}
 			nfiles++;
 		}
 		if (nfiles < 0) { puts ("bad-case"); continue; }
@@ -573,7 +723,8 @@ int main (int argc, char* argv[])
 		if (kind == 'X' || kind == 'Y' || kind == 'Z')
 		{
 			size_t n, mask, total;
-			if (nfiles != 1 || files[0].len > 20 || files[0].nbytes > 20) { puts ("bad-case"); continue; }
+			/* the chunkings of the FIRST file are enumerated; further files (and `side`) keep their given cuts */
+			if (nfiles < 1 || ncons < 1 || cons_idx[0] != 0 || files[0].len > 20 || files[0].nbytes > 20) { puts ("bad-case"); continue; }
 			n = (kind == 'Z')? files[0].nbytes: files[0].len;
 			total = (n >= 1)? ((size_t)1 << (n - 1)): 1;
 			for (mask = 0; mask < total; mask++)
